@@ -16,8 +16,10 @@ impl AsyncPipeReader {
 
     pub(crate) async fn read_to_string(&mut self) -> io::Result<String> {
         use tokio::io::AsyncReadExt;
-        let mut s = String::new();
-        self.0.read_to_string(&mut s).await?;
-        Ok(s)
+        // N.B. Output that isn't valid UTF-8 can't be represented exactly in a string; keep
+        // what can be kept rather than failing the command that asked for the output.
+        let mut bytes = Vec::new();
+        self.0.read_to_end(&mut bytes).await?;
+        Ok(String::from_utf8_lossy(&bytes).into_owned())
     }
 }
